@@ -19,7 +19,7 @@ def demo_app(n, apdu):
     """the card application: n = number of APDUs executed before this one.
     response body length L = (apdu[2]*256+apdu[3]) mod 1024 (or len(apdu) for short input), body byte i =
     (sum(apdu) + 31*i + 7*n) mod 256; status word appended unless apdu[0] == 0xFF:
-    6A82 for INS EE, else 9000.  A second execution (other n) yields other bytes."""
+    6A82 for INS EE, 6C05 for INS 6C, else 9000.  A second execution (other n) yields other bytes."""
     apdu = bytes(apdu)
     if len(apdu) >= 4:
         ln = (apdu[2] * 256 + apdu[3]) % 1024
@@ -31,6 +31,8 @@ def demo_app(n, apdu):
         return body
     if len(apdu) >= 2 and apdu[1] == 0xEE:
         return body + b'\x6a\x82'
+    if len(apdu) >= 2 and apdu[1] == 0x6C:
+        return body + b'\x6c\x05'
     return body + b'\x90\x00'
 
 
